@@ -9,233 +9,407 @@ import subprocess
 VERIF = os.path.dirname(os.path.dirname(os.path.abspath(__file__)))
 
 COMMON_NOTE = ("Trusted: Coq 8.16.1 kernel (vm_compute used for finite sweeps/witnesses, no native_compute), "
-               "ExtrOcamlBasic extraction + OCaml 4.13.1, the hand-written OCaml driver and Rust harness "
-               "(generator, canonicalisation), the lane-wise semantics given to x86 intrinsics. The Rust code is "
+               "extraction with ExtrOcamlBasic only (its Extract Inductive directives for bool, option, list, prod, unit, sumbool, sumor; "
+               "no other Extract Inductive; ONE Extract Constant in the whole development, coq/pwm/Extract.v: see C09) + OCaml 4.13.1, "
+               "Flocq 4.1 as the definition of binary32/binary64, the hand-written OCaml driver and Rust harness "
+               "(generator, canonicalisation; hand-written PROPFAIL paths are listed per property in the SPEC trusted_base of props/*.py), "
+               "the lane-wise semantics given to x86 intrinsics. The Rust code is "
                "modelled by hand (no verified Rust->Gallina path exists here); the model is tied to /repo's working "
                "tree on every run by the correspondence check (and by the translator where one is named). "
                "Source pins (DESIGN 8.8): pins/source.json holds a fingerprint (comments and white space removed) of every Rust source "
                "file; when the tree a quick check decides differs from it in a file of the property's crates, nothing is reported for that "
-               "alone, but the quick tier draws its cases from the thorough-tier generator and 4 times as many (evidence notes say so). ")
+               "alone, but the quick tier draws its cases from the thorough-tier generator and 4 times as many (evidence notes say so). "
+               "Theorem statement pins (pins/theorems.json, tools/repin.py --theorems): a pinned property theorem that disappears or whose "
+               "statement changes is a broken obligation. Obligation counts below are the Theorem/Lemma/Corollary statements of the property "
+               "files at /repo 3bcb63a; translation-tie statements are named as such. ")
 
 P = {}
 
 P["C01"] = dict(
-    text="Coq theorems (coq/score/C01.v) about a model following pli/mod.rs, avx2.rs, sse2.rs, dispatch.rs and scores.rs: "
-         "every cell of every backend's score matrix is the left fold of the code's own addition over the M looked-up "
-         "terms (any element type, any addition - hence IEEE addition as it is), unstripe yields exactly L-M+1 values "
-         "(none when L<M), row sub-ranges equal the rows of the full scan, AVX2 permute/gather, SSE2 and every dispatcher "
-         "arm (any arm table, incl. the Arm one with NEON; the NEON kernel by translator and proof only) equal the generic kernel for "
-         "every row range, old buffer content and padding content, -inf absorption and the full summation error bound "
-         "|fl(sum)-sum| <= ((1+2^-24)^n-1) sum|t| for binary32 (Flocq). 45 theorems in C01.v (36), C01History.v (2: the Striped "
-         "hypothesis discharged after any stripe/configure history of the C04 model) and C01Scores.v (7, round 3: after ANY history of "
-         "score_into / score_rows_into / resize / clone / Default calls on ONE reused StripedScores buffer, from any initial content, a "
-         "scoring call gives what the generic pipeline gives on a fresh buffer, and len / is_empty / unstripe are the L-M+1 defined scores; "
-         "the defined score is never -0.0). Translators, re-run on every check: AVX2 shuffle masks / lane un-permutation / dispatcher "
-         "tables (x86 and Arm) / presence, order and nesting depth of the wrappers' guards (translate/score_avx2.py, score_lane4.py) and the "
-         "statement skeleton of scores.rs (translate/score_scores.py -> GenScores.v, proved to be the model's: "
-         "C01_scores_skeleton_as_modelled). Tie: extracted model vs implementation, bit-exact binary32, DNA/protein, 16/32/48/64 columns, "
-         "all arms, sub-ranges, and 10 % histories on one reused score buffer replayed step by step from the observed state.",
+    text="Coq theorems (coq/score) about a model following pli/mod.rs, avx2.rs, sse2.rs, neon.rs, dispatch.rs and scores.rs: every cell of "
+         "every backend's score matrix is the left fold of the code's own addition over the M looked-up terms (any element type, any "
+         "addition - hence IEEE addition as it is), unstripe yields exactly L-M+1 values (none when L<M), row sub-ranges (also reaching into "
+         "the look-ahead rows: C01_score_rows_lookahead) equal the rows of the full scan, AVX2 permute/gather, SSE2 and every dispatcher arm "
+         "(any arm table, incl. the Arm one with NEON; the NEON kernel by translator and proof only) equal the generic kernel for every row "
+         "range, old buffer content and padding content, -inf absorption and the full summation error bound "
+         "|fl(sum)-sum| <= ((1+2^-24)^n-1) sum|t| for binary32 (Flocq). 78 theorems in C01.v (58), C01History.v (9: the Striped / Padded "
+         "hypotheses discharged after any history of the C04 model incl. StripedSequence::new and ::sample) and C01Scores.v (11: after ANY "
+         "history of score_into / score_rows_into / resize / clone / Default calls on ONE reused StripedScores buffer a scoring call gives "
+         "what the generic pipeline gives on a fresh buffer). Review wave: the kernel / wrapper / dispatcher equalities hold under mat_wf alone "
+         "(*_eq_wf: any StripedSequence the API can build; the earlier names are corollaries); value theorems also for states with ARBITRARY "
+         "padding (StripedSequence::new on any matrix, spare rows included): C01_score_unstripe_padded (exactly the L-M+1 defined scores), "
+         "C01_score_cells_padded (what the cells past max_index hold, as coded), C01_every_backend_padded; L<M without any layout hypothesis "
+         "(C01_scores_short_iter_index). Translators, re-run on every check: AVX2 shuffle masks / lane un-permutation / dispatcher tables (x86 "
+         "and Arm) / presence, order and nesting depth of the wrappers' guards (translate/score_avx2.py, score_lane4.py) and the statement "
+         "skeleton of scores.rs (translate/score_scores.py -> GenScores.v; C01_scores_skeleton_as_modelled). Tie: extracted model vs "
+         "implementation, bit-exact binary32, DNA/protein, 16/32/48/64 columns, all arms, sub-ranges, 10 % histories on one reused score buffer, "
+         "12 % of the classic cases on sequences built by StripedSequence::new (hand-made matrix, non-wildcard padding), 8 % by ::sample; the "
+         "logical sequence is read off the observed matrix by the extracted logical_seq, the hypothesis decided by the extracted padded_b.",
     note=COMMON_NOTE + "Value statements (error bound) exclude NaN/+inf cells, sum|t| >= 2^126 and motifs wider than 2^23; the bit-for-bit "
-         "backend equalities have no such restriction. The NEON kernel is never executed on this host (translator + proof only).",
+         "backend equalities have no such restriction. The NEON kernel is never executed on this host (translator + proof only). Hand-written "
+         "PROPFAIL paths of the driver are strictly additional to the extracted check_C01 / check_same_results / check_subrange (panics of calls "
+         "that must not panic, Index / score_position / rev / len against unstripe). Proving the padded-state theorems found the "
+         "StripedSequence::sample defect repaired in /repo 740d563 (C01 itself was not violated).",
     technique="Coq proof (induction over rows/positions and over op histories of one score buffer; reflection on translated lane tables) "
               "tied by three translators (lane tables + wrapper guards, scores.rs statement skeleton) and the extracted-model "
-              "correspondence check (bit-exact binary32, incl. histories)",
-    design="DESIGN.md section 3, C01")
+              "correspondence check (bit-exact binary32, incl. histories and StripedSequence::new / ::sample states with arbitrary padding)",
+    design="DESIGN.md section 3, C01; as built: 8.5, 8.10 item 10")
 P["C02"] = dict(
-    text="Coq theorems (coq/scan/C02.v) about a line-by-line model of Scanner::next (scan.rs): soundness (every hit is a valid "
-         "position with its defined score >= threshold, no duplicates), completeness (the yielded multiset is exactly the "
-         "positions at or above the threshold) for every block size, sequence length (incl. L<M, L=0, rows a multiple of the "
-         "block size) and threshold, no panic, termination; by induction over blocks. Tie: extracted model vs Scanner on "
-         "generated scans (bit-exact hits, all arms, take(k) prefixes, setters called between calls). Round 3: translate/scan_skel.py re-reads scan.rs on every run into a 22-field statement skeleton (coq/scan/GenScan.v) + the defaults of Scanner::new; C02Source.v (8 theorems) restates the property for the scanner parameterised by that skeleton and shows that 13 single-field deviations violate it; the extracted skeleton scanner is replayed against the implementation too; C02_setters_between_calls_sound (threshold lowered / any block size between calls: soundness). 25 theorems in C02.v (17) + C02Source.v (8). Thorough tier adds the 30 end-to-end composition theorems of coq/e2e (text -> encode -> stripe -> configure -> Scanner, bridges between the groups' models) as obligations.",
-    note=COMMON_NOTE + "The 8-bit pre-filter's conservativeness is C08's theorem (exact arithmetic; binary32 under disc's executable conditioning predicate: C02_concrete_scan_wc_checked; known finding F14 outside it); striping/scoring/max kernels are taken by their specifications proved in C01/C04/C07 (equality with those groups' kernel models: coq/e2e, thorough tier). The skeleton translator also fires on order-only edits (remove(0), tie-break) that the property tolerates: reported as a broken tie, no failing input.",
-    technique="Coq proof (induction over blocks, invariant on buffered hits) + translated statement skeleton of scan.rs (GenScan.v) with the property theorems restated for it + extracted-model correspondence check",
-    design="DESIGN.md section 3, C02")
+    text="Coq theorems (coq/scan) about a line-by-line model of Scanner::next (scan.rs): soundness (every hit is a valid position with its "
+         "defined score >= threshold, no duplicates), completeness (the yielded multiset is exactly the positions at or above the threshold) "
+         "for every block size, sequence length (incl. L<M, L=0, rows a multiple of the block size) and threshold; by induction over blocks. "
+         "38 theorems: C02.v (17), C02Source.v (8 translation ties: the property restated for the scanner parameterised by the 22-field "
+         "statement skeleton translate/scan_skel.py re-reads from scan.rs on every run; 13 single-field deviations violate it), C02Total.v "
+         "(13, review wave): no panic / termination of next(), take(k) and exhaustion of the binary32 scanner under the layout hypotheses ONLY "
+         "(C02_scan_total, C02_concrete_total - no hypothesis on the 8-bit pre-filter, so also on ill-conditioned matrices); a word-level "
+         "model of the usize arithmetic (ScanWord.v: checked / wrapping / saturating addition) proved equal to the unbounded one for a block "
+         "size set before the first call (C02_word_scanner_eq, C02_word_scan_complete) and sound after Scanner::block_size / threshold calls "
+         "BETWEEN calls (C02_word_setters_between_calls_sound; C02_source_setters_between_calls_sound at the kind of addition read from the "
+         "source: any new block size with the saturating_add of /repo 3bcb63a; C02_word_setters_any_block_size_refuted keeps the witness of "
+         "the repaired overflow); every PROPFAIL decided by an extracted, proved function (check_c02, check_take, check_sw, gate pre_ok). "
+         "Tie: extracted model, extracted skeleton scanner and word-level model vs Scanner on generated scans (bit-exact hits in yield order, "
+         "all arms, take(k) prefixes, setters between calls, block sizes up to usize::MAX, overflow witnesses also through the release build). "
+         "Thorough tier adds the 72 composed statements of coq/e2e (E2E.v 30: text -> encode -> stripe -> configure -> Scanner, bridges "
+         "between the groups' models; E2EStat.v 21; E2EPyCore.v 13; E2EPadding.v 8) as obligations.",
+    note=COMMON_NOTE + "PARTIAL for completeness in binary32: the 8-bit pre-filter's conservativeness is C08's theorem (exact arithmetic; binary32 under disc's executable "
+         "conditioning predicate: C02_concrete_scan_wc_checked; C02_concrete_scan, _explicit, _c08 carry the C08 hypothesis; known finding F14 outside it); "
+         "striping/scoring/max kernels are taken by their specifications proved in C01/C04/C07 (equality with those groups' kernel models: coq/e2e, "
+         "thorough tier). The skeleton translator also fires on order-only edits (remove(0), tie-break) that the property tolerates: reported as a broken "
+         "tie, no failing input. Block sizes above 10^7 are compared with the word-level model only. Hand-written in the driver: `panic => PROPFAIL when "
+         "pre_ok`, more-hits-than-cells, wording of details.",
+    technique="Coq proof (induction over blocks, invariant on buffered hits; word-level usize model with checked/wrapping/saturating add) + translated statement "
+              "skeleton of scan.rs (GenScan.v) with the property theorems restated for it + extracted-model correspondence check with extracted judges",
+    design="DESIGN.md section 3, C02; as built: 8.5, 8.10 items 5, 6")
 P["C03"] = dict(
-    text="Coq theorems (coq/scan/C03.v) about the model of Scanner::max: None iff no unconsumed position reaches the threshold; "
-         "otherwise the result's score is the maximum over unconsumed positions and >= threshold, independent of block size and "
-         "after any prefix of next() calls. Round 3: C03Source.v (5 theorems) restates this for the scanner parameterised by the statement "
-         "skeleton re-read from scan.rs on every run (translate/scan_skel.py -> GenScan.v); 13 single-field deviations of max() violate it, "
-         "3 order/pruning-only ones do not. 16 theorems in C03.v (11) + C03Source.v (5). Tie: extracted model and extracted skeleton scanner "
-         "vs Scanner::max on generated near-tie cases, all arms, prefixes at block boundaries, setters between next() and max().",
-    note=COMMON_NOTE + "Pruning soundness uses C08 (conservative 8-bit scores) and monotonicity of scale in exact arithmetic.",
-    technique="Coq proof (invariant over blocks and consumed prefixes) + translated statement skeleton of scan.rs (GenScan.v) with the property theorems restated for it + extracted-model correspondence check",
-    design="DESIGN.md section 3, C03")
+    text="Coq theorems (coq/scan) about the model of Scanner::max: None iff no unconsumed position reaches the threshold; otherwise the result's "
+         "score is the maximum over unconsumed positions and >= threshold, independent of block size and after any prefix of next() calls. 28 theorems: "
+         "C03.v (11), C03Source.v (5 translation ties on the statement skeleton re-read from scan.rs; 13 single-field deviations of max() violate the "
+         "property, 3 order/pruning-only ones do not), C03Total.v (12, review wave): max() returns from every state under layout hypotheses only "
+         "(C03_max_total, C03_concrete_max_total); the binary32 scanner gives the same answer, position included, for any two arms and block sizes "
+         "(C03_concrete_max_block_independent, _wc_checked without numeric hypothesis), observed on every case (maxb=, PROPFAIL "
+         "max-depends-on-block-size by the extracted same_answer); word-level model after setters (C03_word_setters_max_eq, "
+         "C03_source_setters_max_eq, witness C03_word_setters_max_any_block_size_refuted of the overflow repaired in /repo 3bcb63a); the skeleton scanner's "
+         "statement with the tie-break conjunct (C03_source_concrete_max_wc_checked_full); judge check_swmax proved (C03_check_swmax_sound). Tie: "
+         "extracted model and extracted skeleton scanner vs Scanner::max on generated near-tie cases, all arms, prefixes at block boundaries, setters "
+         "between next() and max(); consumed hits compared by position AND score bits. Thorough tier adds the 72 composed statements of coq/e2e.",
+    note=COMMON_NOTE + "Pruning soundness uses C08 (conservative 8-bit scores) and monotonicity of scale in exact arithmetic; C03_concrete_max, _explicit, _c08 carry "
+         "that hypothesis (PARTIAL; known finding F14 outside disc's conditioning predicate, also for a block-size dependent answer with wc=false). There is no "
+         "nat-level soundness theorem for max() after setters (judge check_swmax + tie + word/nat equalities).",
+    technique="Coq proof (invariant over blocks and consumed prefixes; word-level usize model) + translated statement skeleton of scan.rs (GenScan.v) with the "
+              "property theorems restated for it + extracted-model correspondence check with extracted judges",
+    design="DESIGN.md section 3, C03; as built: 8.5, 8.10 item 5")
 P["C04"] = dict(
-    text="Coq theorems (coq/stripe/C04.v): generic striping into a reused buffer yields the Striped layout (cell (r,c) = symbol c*R+r, "
-         "wildcard past L) for every sequence, column count and old buffer; the AVX2 32x32 transpose network - regenerated from "
-         "avx2.rs on every run - transposes (reflection), and stripe_avx2 = generic for all inputs; configure_wrap keeps the "
-         "invariant (incl. wrap > rows); every history of stripe/configure operations keeps it (fold_left); indexing and symbol "
-         "counts equal the linear sequence. Tie: extracted model vs implementation on op histories, every arm, cell by cell.",
-    note=COMMON_NOTE + "Translator: translate/stripe_net.py (unpack!/load/store order of stripe_avx2).",
-    technique="Coq proof (layout invariant by induction over op histories, reflection on the translated transpose network) + translator + correspondence check",
-    design="DESIGN.md section 3, C04")
+    text="Coq theorems (coq/stripe/C04.v, 57): generic striping into a reused buffer yields the Striped layout (cell (r,c) = symbol c*R+r, wildcard "
+         "past L) for every sequence, column count and old buffer; the AVX2 32x32 transpose network - regenerated from avx2.rs on every run - "
+         "transposes (reflection), and stripe_avx2 = generic for all inputs; configure_wrap keeps the invariant (incl. wrap > rows); every history of "
+         "stripe/configure operations keeps it (fold_left), from any stale start; indexing and symbol counts equal the linear sequence. Round 3: seq.rs "
+         "(new / configure / configure_wrap / Index / count_symbol(s)), the provided Stripe::stripe / stripe_into of pli/mod.rs, StripedSequence::sample (as "
+         "repaired by /repo 740d563) and 15 forwarding facts (From / Clone / Default / AsRef / getters) are TRANSLATED on every run (GenSeq.v, GenPli.v) and "
+         "proved equal to the hand model (C04_seq_translated, C04_pli_translated, C04_sample_translated); stripe_into overwrites everything "
+         "(C04_stripe_into_overwrites_everything); conversions (C04_conversions_history); states with arbitrary padding (StripedSequence::new: "
+         "C04_pad_history) and the padding mode as a theorem (C04_mode_history: which checker decides after each op is extracted code); the repaired "
+         "sample yields a Striped state (C04_sample_striped; C04_sample_prefix_striped_refuted for the old one); full checker incl. Index in the padding "
+         "(= wildcard) and beyond the matrix (= panic) (C04_check_full_sound); generic-versus-AVX2 agreement decided by the extracted check_agree on the two "
+         "printed states (C04_check_agree_sound). Tie: extracted model vs implementation on op histories (incl. clone, From<EncodedSequence>, via DenseMatrix, "
+         "reused destinations of every pair class, 571 committed histories), every arm, cell by cell.",
+    note=COMMON_NOTE + "Translators: translate/stripe_net.py (unpack!/load/store order of stripe_avx2), stripe_seq.py (seq.rs), stripe_pli.py (pli/mod.rs trait Stripe, "
+         "sample, forwarding facts). Vec capacity, Debug and the distribution of sample() are not modelled; the NEON arm cannot be replayed on this host. "
+         "Hand-written PROPFAIL paths: a panic of any op, `new` rejecting a matrix that holds the sequence / accepting a smaller one, rows() printed against the "
+         "rows listed, is_empty()/as_ref() inconsistency flagged by the harness, sample-stream comparisons.",
+    technique="Coq proof (layout invariant by induction over op histories, reflection on the translated transpose network) + three translators (transpose network, "
+              "seq.rs, pli/mod.rs statement skeletons) + correspondence check with extracted checkers (check_C04_full / check_C04_pad / check_agree, mode selection extracted)",
+    design="DESIGN.md section 3, C04; as built: 8.5")
 P["C05"] = dict(
-    text="Coq theorems (coq/encode/C05.v): for DNA and protein, on every pipeline (generic, SSE2, AVX2, every dispatcher arm) and every "
+    text="Coq theorems (coq/encode/C05.v, 19): for DNA and protein, on every pipeline (generic, SSE2, AVX2, every dispatcher arm) and every "
          "byte string, encoding returns Ok of the symbol indices iff all bytes are alphabet letters and otherwise the error of the "
          "FIRST offending byte; SIMD kernels (block loop, error mask, rescan, scalar tail) equal the generic encoder whatever the "
-         "uninitialised buffer held; display inverts encode; lower case and bytes >= 0x80 are rejected. Alphabet tables, dispatcher "
+         "uninitialised buffer held; display inverts encode; lower case and bytes >= 0x80 are rejected; encode_into in a window of a larger buffer "
+         "(C05_encode_into_window); NEON kernel by translator and proof (C05_encode_neon_eq_generic). Alphabet tables, dispatcher "
          "arm table and kernel loop bounds are regenerated from abc.rs/dispatch.rs/avx2.rs/sse2.rs on every run and the 256-value "
          "sweeps re-checked. Tie: extracted model and proved-sound-and-complete checker vs implementation on generated byte strings.",
-    note=COMMON_NOTE + "Translator: translate/encode_abc.py. NEON arm not compiled on this host: not covered.",
+    note=COMMON_NOTE + "Translator: translate/encode_abc.py. NEON arm not compiled on this host: translator + proof only, never observed. from_str = encode(as_bytes) by "
+         "transcription (checked textually); `display missing`, `display of a rejected text` and the table case are hand-written PROPFAIL paths of the driver. "
+         "Unchanged by the review wave (verdict: faithful).",
     technique="Coq proof (induction on blocks + finite 256-byte sweeps lifted by forallb_forall) + translator + extracted-model correspondence check",
     design="DESIGN.md section 3, C05")
 P["C06"] = dict(
-    text="PARTIAL by nature. Coq theorems (coq/footprint/C06.v) about a footprint model: for every unsafe kernel (AVX2/SSE2 scoring, "
-         "striping, encoding, max/argmax, dense-matrix constructors) the list of memory accesses (buffer, byte offset, width, "
-         "alignment requirement) as a function of the sizes is inside the buffer extents of the dense layout (C19) and aligned, under "
-         "exactly the guards the safe wrappers establish. Tie: per generated public-API history the model's verdict is compared with "
-         "AddressSanitizer's verdict on the real code, and the observed access parameters with the model's.",
-    note=COMMON_NOTE + "Not verified: allocator, compiler, reads of allocated-but-uninitialised capacity (ASan-invisible); ASan (nightly rustc -Zsanitizer=address) is part of the tie.",
-    technique="Coq proof of in-bounds/alignment of a footprint model + ASan-backed correspondence check",
-    design="DESIGN.md section 3, C06")
+    text="PARTIAL by nature - the footprint model is machine-checked (Coq, 45 + 36 theorems: coq/footprint/C06.v, C06b.v), the run-time VERDICT is the "
+         "sanitizers'. Proved: for every unsafe kernel (AVX2/SSE2/NEON scoring, striping, encoding, max/argmax, dense-matrix constructors) the list of "
+         "memory accesses (buffer, byte offset, width, alignment requirement) as a function of the sizes is inside the owned rows of the dense layout "
+         "(C19) and aligned, under exactly the guards the safe wrappers establish; the guards as computed in usize (overflow panic in dev, wrap in "
+         "release) agree with the modelled integer guards (fp_usize_guard_*, fp_score_kernels_safe_under_usize_guards); an invariant (rows <= capacity "
+         "for the sequence and both score matrices, shape of the sequence matrix) is preserved along every API history and every access is inside the "
+         "allocation as it is at that step (C06_histories_invariant_partial, _from_fresh_partial; C06_histories_partial is the invariant-free conjunction, "
+         "C06_histories_allocation_partial the weaker corollary); every readable cell is covered by a write (fp_init_*); the Python buffer-view extents "
+         "lie inside the owned rows (fp_py_*). Run: five child processes per generated public-API history - AddressSanitizer at opt-level 0 and "
+         "--release, two opt-level 0 guard-page / canary children (end- and start-aligned), MemorySanitizer; every run-time PROPFAIL is hand-written "
+         "matching of their verdict strings and of harness records (damaged canary, rows() > capacity(), symbol code >= K, from_rows exposing unwritten "
+         "rows); the extracted check_C06 decides a PROPFAIL only in the static source-footprint path (NEON wrappers). Tie of model and implementation (DIFF): "
+         "guards, strides, post-states (also after a panic), capacities, 750 pinned statements of 69 functions, source-derived access sets of the kernels.",
+    note=COMMON_NOTE + "Not verified: allocator, compiler; reads of uninitialised memory are covered at model level (C06b.v part B) and dynamically by the MemorySanitizer "
+         "child, except cells written only by non-temporal stores (invisible to ASan and MSan: reported as a broken tie, covered by guard pages / canaries). A "
+         "check_C06 rejection of a model access is `DIFF model-access-outside-owned-rows` (was printed OK before the review). No footprint theorem for Scanner, "
+         "Sampler, threshold, count_symbols, iterators, clone (safe code over the kernels: sanitizer children only). Allocation failure is outside the model.",
+    technique="Coq proof of in-bounds/alignment of a footprint model, capacity invariant over histories, usize-guard model + AddressSanitizer / MemorySanitizer / "
+              "guard-page-allocator children + pinned source text (translate/footprint_src.py) + source interpreter of the kernels' pointer arithmetic",
+    design="DESIGN.md section 3, C06; as built: 8.5, 8.10 item 11")
 P["C07"] = dict(
-    text="Coq theorems (coq/maxi/C07.v): max is the greatest cell, argmax designates an in-range cell holding it, threshold returns "
-         "exactly the cells >= t without duplicates, None on empty matrices; each AVX2/SSE2 kernel and every dispatcher arm equals its "
-         "specification; padding cells are -inf so the float maximum is the best valid score. Order facts discharged for binary32 "
-         "(Flocq) and u8. Round 3: REUSED buffers - after every history of StripedScores::resize / DenseMatrix::resize (more or fewer rows) "
-         "and cell writes the default scans, offset and Index answer as on a fresh matrix of the logical rows, on every dispatcher arm "
-         "(C07_history_independent, C07_history_answers_meet_spec, C07_history_all_arms_f32/_u8; a grow-only resize is refuted). 62 theorems "
-         "(C07.v 52 + C07Source.v 10: dispatcher / pipeline tables, permute2x128 operands, lane offsets, the resize statements of dense.rs / "
-         "scores.rs, Iter::new, default-scan loops and the kernels' comparison predicates re-read from the source on every run by "
-         "translate/maxi_tables.py). Tie: extracted model and checker vs implementation on generated f32/u8 matrices (16/32/48/64 columns), all "
-         "arms, 30 % of the cases on a reused buffer with a 1-3 step history, Scanner-pattern range cases.",
-    note=COMMON_NOTE + "NEON kernels are not compiled on this host (the Arm dispatcher tables are translated and proved, never executed); score_rows_into steps inside a history are not modelled (rows rewritten afterwards).",
-    technique="Coq proof (total-preorder section instantiated for binary32/u8, lane-wise kernel models, buffer-history invariant) + translator of the dispatcher / lane / resize / comparison tables + extracted-model correspondence check incl. histories on one reused buffer",
-    design="DESIGN.md section 3, C07")
+    text="Coq theorems (coq/maxi, 54 + 10): max is the greatest cell, argmax designates an in-range cell holding it, threshold returns exactly the cells "
+         ">= t without duplicates, None on empty matrices (C07_empty_matrix_any_index: without hypothesis for every entry point except the SSE2 / AVX2 f32 "
+         "arg-maximum, which panics as coded when max_index > u32::MAX); each AVX2/SSE2 kernel and every dispatcher arm equals its specification "
+         "(C07_dispatch_unguarded_arms: the Generic f32 arm and the non-AVX2 u8 arms without row-count hypotheses). Order facts discharged for binary32 "
+         "(Flocq) and u8. REUSED buffers: after every history of StripedScores::resize / DenseMatrix::resize and cell writes the default scans, offset and "
+         "Index answer as on a fresh matrix of the logical rows, on every arm (C07_history_independent, C07_history_all_arms_f32/_u8; a grow-only resize "
+         "is refuted). C07Source.v (10 translation ties: dispatcher / pipeline tables, permute2x128 operands, lane offsets, resize statements, Iter::new, "
+         "default-scan loops, comparison predicates re-read by translate/maxi_tables.py). Review wave - the PADDING clause end to end: in the thorough tier "
+         "the 8 statements of coq/e2e/E2EPadding.v compose it with C01: from a configured Striped sequence and a matrix with a -inf wildcard column all "
+         "scoring backends return ONE matrix whose cells past max_index are -inf (C07_padding_scored: the cell formula is discharged, not assumed) and "
+         "max / argmax / threshold of every arm designate valid positions (C07_padding_answers); the premise `padding holds the wildcard` is needed "
+         "(C07_padding_needs_wildcard_padding); first sentence for every padded state (C07_first_sentence_padded). Tie: extracted model and checker vs "
+         "implementation on generated f32/u8 matrices (16/32/48/64 columns), all arms, 30 % on a reused buffer, Scanner-pattern ranges, and 5 % `k=pad` "
+         "cases: sequence from StripedSequence::sample / to_striped / StripedSequence::new on a hand-filled matrix, scored by three pipelines and three "
+         "forced arms, judged by the extracted check_C07 and check_padding / check_padding_max.",
+    note=COMMON_NOTE + "NEON kernels are not compiled on this host (the Arm dispatcher tables are translated and proved, never executed); score_rows_into steps inside a "
+         "history are not modelled. The `k=pad` cases guard the repair /repo 740d563 (StripedSequence::sample left random symbols in the padding: reverting it gives "
+         "PROPFAIL on 8 of 11 sampled corpus lines). Hand-written PROPFAIL paths next to the extracted checkers: a panic where the model has no guard, max disagrees "
+         "with the generic max, offset out of range, scores[argmax] differs from the designated cell, the premise test deciding whether a hand-filled matrix is "
+         "judged by the padding clause. No k=pad variant for u8, Protein or 16-/64-column layouts.",
+    technique="Coq proof (total-preorder section instantiated for binary32/u8, lane-wise kernel models, buffer-history invariant; padding clause composed with C01 in "
+              "coq/e2e) + translator of the dispatcher / lane / resize / comparison tables + extracted-model correspondence check incl. reused buffers and sampled sequences",
+    design="DESIGN.md section 3, C07; as built: 8.5, 8.7")
 P["C08"] = dict(
-    text="Coq theorems (coq/disc/C08.v): in exact arithmetic (extended rationals), for every matrix with finite non-wildcard cells, "
-         "every window and every backend, the saturating 8-bit score is >= scale(real score); scale is monotone; threshold transfer; "
-         "AVX2 u8 kernel = generic saturating kernel = every dispatcher arm for all inputs; to_discrete total. For binary32 the "
-         "statement is refuted for ill-conditioned matrices (C08_ieee_refuted: known finding F14, identified by the conditioning "
-         "predicate). Tie: bit-exact binary32 model of to_discrete/scale/u8 kernels vs implementation; proved-sound checker on the "
-         "implementation's own scores.",
-    note=COMMON_NOTE + "Partial: the inequality is proved for exact arithmetic; for binary32 under the conditioning predicate it is checked by the correspondence run only.",
-    technique="Coq proof over exact rationals (ceil/floor/saturation lemmas) + bit-exact Flocq model correspondence check",
-    design="DESIGN.md section 3, C08")
+    text="Coq theorems (coq/disc/C08.v, 45) on a model whose discretisation functions and u8 kernels are regenerated from the source on every run (two "
+         "translators) and replayed bit-exactly. Exact arithmetic (extended rationals): for every matrix with finite non-wildcard cells and every window the "
+         "saturating 8-bit score is >= scale(real score); as the byte a backend writes: for ANY alphabet size and column count on the generic kernel "
+         "(C08_generic_backend_overestimates), K <= 16 and 32 columns on the AVX2 kernel and the x86 dispatcher (C08_backends_overestimate), K <= 16 and 16q "
+         "columns on the NEON kernel and the Arm-host dispatcher (C08_arm_hosts_overestimate); on ONE reused StripedScores<u8> buffer after any history through "
+         "mixed pipelines (C08_scores_history, C08_history_overestimates); scale monotone, threshold transfer, unscale (C08_unscale_scale, "
+         "C08_unscale_bounds_real), factor 0 iff every row constant (C08_factor_positive_iff_nonconstant); to_discrete total. Binary32 (Flocq): the consequence "
+         "clause unconditionally (C08_scale_monotone_f32, C08_threshold_transfer_f32 for every factor to_discrete can produce: C08_factor_sign_clear); the main "
+         "clause under the executable predicate well_conditioned plus two side conditions (at most 16384 rows, cond_A <= 2^126: the `_partial` theorems); false "
+         "on ill-conditioned matrices (C08_ieee_refuted: known finding F14). Tie: skeleton-driven to_discrete / scale / unscale / score_position and the u8 "
+         "kernels vs implementation bit for bit (DNA and protein, 16/32 columns, histories on reused buffers, families tiny / hugecell / cpg); proved-sound "
+         "checkers first_bad / first_bad_impl on the implementation's own scores and scale images.",
+    note=COMMON_NOTE + "Partial: the binary32 main clause is proved only under the conditioning predicate + side conditions; otherwise checked by the correspondence run. "
+         "max_score / min_score are a hand model; unscale has no binary32 theorem; the buffer state after a panicked call is not modelled; NEON never executed. A missing "
+         "observation is `DIFF property-not-checked:..`, legitimate skips are printed (`OK skipped=..`) and counted. Hand-written PROPFAIL: the backend-mismatch family "
+         "(string comparison of two observed score matrices; an arm that panicked where the generic pipeline did not).",
+    technique="Coq proof over exact rationals (ceil/floor/saturation lemmas) and Flocq binary32 + two source translators (translate/disc_u8.py, disc_skel.py) + extracted "
+              "checkers on the implementation's own numbers + bit-exact replay incl. histories on one reused buffer",
+    design="DESIGN.md section 3, C08; as built: 8.5, 8.10 item 9")
 P["C09"] = dict(
-    text="Coq theorems (coq/pwm/C09.v): counts from sequences = occurrence counts (unequal lengths rejected); frequency rows sum to one "
-         "and frequency/weight/log-odds cells have their defining form (exact arithmetic); one-step and two-step conversions perform "
-         "the same operations (any number type, so for IEEE as is); rescale to another background; every window score lies between "
-         "min_score and max_score; Background::new / FrequencyMatrix::new accept exactly the documented inputs. Tie: bit-exact binary32 "
-         "model vs implementation up to the logarithm, logarithms through an oracle table from the implementation's libm. Round 3 (C09Stat.v, 26 theorems; 66 with C09.v): Correlation::{dot, norm, auto_correlation, cross_correlation}, CountMatrix::{new, entropy, consensus}, both information_content functions, From<ScoringMatrix> for WeightMatrix and the usize overflow of Background::from_counts are modelled as coded, tied bit-exactly (kind=stat, sqrt = Flocq Bsqrt, log2 / 2^x through oracle tables) and specified over the reals (Cauchy-Schwarz, correlations in [-1,1], entropy in [0, log2 K], information content = relative entropy; cross_correlation symmetric bit for bit in binary32); their statement skeletons are regenerated from pwm/mod.rs on every run (translate/pwm_skel.py) and compared with the pinned ones (C09_source_skeleton).",
-    note=COMMON_NOTE + "log2/log10/ln/powf are Section variables (no executable Coq logarithm); their assumed facts (log 0 = -inf, monotone) are re-validated on the observed table every run. The real-number theorems of C09Stat.v speak about the functions as coded interpreted over R; the distance of the binary32 results from those values is checked with 1e-4 / 1e-3 slack, not proved. Documented, not violations of C09 as worded (notes/pwm.md R3-1..R3-5): WeightMatrix::information_content is computed on the odds ratio (..._is_relative_entropy_refuted), u32 row sums in entropy/consensus, CountMatrix::new never rejects, consensus keeps the last maximum, usize overflow of from_counts.",
-    technique="Coq proof (exact rationals, reals for the statistics functions, number-type-generic operation equality, Flocq binary32 error bounds) + translators (complement table, statement skeletons of pwm/mod.rs) + bit-exact correspondence check",
-    design="DESIGN.md section 3, C09")
+    text="Coq theorems (coq/pwm: C09.v 40, C09Stat.v 26, C09Log.v 14 = 80): counts from sequences = occurrence counts (unequal lengths rejected); frequency rows "
+         "sum to one and frequency/weight/log-odds cells have their defining form (exact arithmetic; C09_freq_cell_nonzero_total under the explicit hypothesis "
+         "total <> 0, NaN at total 0 pinned: C09_freq_zero_total_is_nan_f32; binary32 error bounds with the finiteness hypotheses discharged: C09_freq_finite_f32); "
+         "one-step and two-step conversions perform the same operations (any number type, so for IEEE as is; compared bit for bit); rescale; every window score "
+         "lies between min_score and max_score; Background::new / FrequencyMatrix::new accept exactly the documented inputs. Review wave (C09Log.v): `the score is the "
+         "logarithm of the weight` has formal content - every observed score cell is checked against the REAL logarithm ln w / ln base (2^-20 relative) by an "
+         "extracted interval-arithmetic checker proved sound (coq-interval; C09_score_cell_real_sound), no oracle in that verdict; the model's cells are logarithms "
+         "for any functions validated on the arguments (C09_score_is_logarithm; closed instance for the table-sampled functions C09_score_is_logarithm_table), "
+         "general-base quotient within 2^-18 + 2^-150 (C09_score_general_base_error), flog2 0 = -inf derived (C09_neg_inf_at_zero_validated); soundness lemmas "
+         "for every checker (C09_freq_checker_sound, C09_close_checkers_sound, C09_judged_cells_sound); the judged domain of the frequency clause is a function "
+         "of the input and comparisons not made are named by extracted *_skipped functions and counted per case. C09Stat.v: Correlation::*, "
+         "CountMatrix::{new, entropy, consensus}, both information_content functions modelled as coded and specified over the reals; statement skeletons "
+         "regenerated (translate/pwm_skel.py; C09_source_skeleton, the one translation tie). Tie: bit-exact binary32 model vs implementation; the libm oracle "
+         "table only feeds the replay and is itself validated entry by entry by the extracted log_pair_ok. Thorough tier adds the 21 composed statements of "
+         "coq/e2e/E2EStat.v.",
+    note=COMMON_NOTE + "log2/log10/ln are parameters of the model; that they are logarithms (2^-20 relative, IEEE conventions) is validated for every table argument on every "
+         "run by a sound extracted checker; that libm meets the bound for ALL arguments is sampled, not proved; bases NaN / inf / <= 0 / 1 are judged against the oracle value "
+         "only; the 2^x table is still validated by hand-written double-precision code (DIFF path). The ONE `Extract Constant` of the development is here: "
+         "coq/pwm/Extract.v realises ClassicalDedekindReals.sig_forall_dec by a function that raises (dead code of the Interval library; a call would abort the "
+         "driver = DIFF, never a verdict). Hand-written PROPFAIL: panics of calls that must not panic, shape mismatches, guards of the stat checks. Documented, not "
+         "violations of C09 as worded (DESIGN 8.3 R3-1..R3-5): WeightMatrix::information_content on the odds ratio, u32 row sums in entropy/consensus, "
+         "CountMatrix::new never rejects, consensus keeps the last maximum, usize overflow of from_counts.",
+    technique="Coq proof (exact rationals, reals for the statistics functions, number-type-generic operation equality, Flocq binary32 error bounds, verified interval "
+              "arithmetic (coq-interval) for the logarithm clause) + translators (complement table, statement skeletons of pwm/mod.rs) + bit-exact correspondence check",
+    design="DESIGN.md section 3, C09; as built: 8.5, 8.10 item 12")
 P["C10"] = dict(
-    text="Coq theorems (coq/pwm/C10.v): the complement table (regenerated from abc.rs) is an involution; reverse complement is reversal "
+    text="Coq theorems (coq/pwm/C10.v, 20): the complement table (regenerated from abc.rs) is an involution; reverse complement is reversal "
          "plus complement and an involution on all four matrix kinds; it commutes with count->frequency->weight->scoring conversion under "
-         "a strand-symmetric background; scores of the reverse-complemented matrix on the reverse-complemented sequence mirror the "
-         "original scores. Tie: bit-exact model vs implementation on all widths incl. the wildcard column.",
-    note=COMMON_NOTE + "Translator: complement table from abc.rs. Commutation is exact-arithmetic (binary32 sums in another order are compared against the bit-exact model; the size of the difference is proved for the mirrored scores and for count -> frequency: C10_revcomp_mirrors_scores_f32, C10_revcomp_commutes_to_freq_f32). 16 theorems. The translate step also regenerates the pwm statement skeletons (GenPwmSkel.v) used by C09.",
+         "a strand-symmetric background - every scalar pseudocount is strand-symmetric, so no further hypothesis (C10_pseudo_scalar_symmetric, "
+         "C10_revcomp_commutes_scalar_pseudo); scores of the reverse-complemented matrix on the reverse-complemented sequence mirror the "
+         "original scores (terms exactly reversed; binary32 bound C10_revcomp_mirrors_scores_f32); what the passing commutation / mirror checks state "
+         "(C10_commutation_check_sound, C10_check_mirror_sound2); overflow of one summation order only is legitimate (C10_mirror_overflow_example): such "
+         "cases are counted, not judged. Tie: bit-exact model vs implementation on all widths incl. the wildcard column.",
+    note=COMMON_NOTE + "Translator: complement table from abc.rs; the translate step also regenerates the pwm statement skeletons (GenPwmSkel.v) used by C09. Commutation is "
+         "exact-arithmetic; the binary32 composite commutation count -> weight / score is CHECKED (1e-6 / 1e-5), not proved (only count -> frequency: "
+         "C10_revcomp_commutes_to_freq_f32); a per-symbol pseudocount vector must be strand-symmetric itself. Background / sequence count unchanged by "
+         "reverse_complement is decided by driver code over extracted comparisons. Same extracted binary as C09 (its Extract Constant is never on a C10 path).",
     technique="Coq proof (list reversal/permutation lemmas, finite sweep of the translated complement table) + translator + correspondence check",
     design="DESIGN.md section 3, C10")
 P["C11"] = dict(
-    text="Coq theorems (coq/dist/C11.v) about the model of ScoreDistribution (dist.rs): the survival table is monotone and within [0,1], "
-         "the tabulated pdf is the exact distribution of the discretised score (induction on rows), discretisation error bound, p-value "
-         "brackets of the exact tail, monotonicity, score/p-value round trip; refuted-lemma with witness for the recorded known finding (f32 unscale). "
-         "Round 3 (37 theorems): no word is lost (C11_no_word_lost: pvalue(s) >= weight(w) for every word w and s <= S(w) - d), max_score is the best "
-         "word and min_pvalue its mass (C11_max_score_is_best_word, C11_min_pvalue_is_best, C11_best_score_tail), monotonicity of scale and of the "
-         "p-values in binary64 ITSELF (Flocq: C11_scale_monotone_binary64, C11_pvalue_monotone_binary64), a second exact reference with one entry per "
-         "distinct score proved to give the same checker verdict (C11_grid_checker_eq, C11_red_checker_eq) so that long motifs (width <= 48) are "
-         "bracket-checked; CDF_RANGE and the statement skeleton of dist.rs re-read on every run (translate/dist_skel.py; C11_source_skeleton). "
-         "Tie: bit-exact binary64 model of the table, pvalue, score, scale, unscale vs implementation; exact tails by enumeration or on the score grid.",
-    note=COMMON_NOTE + "Partial: exact-arithmetic theorems + bit-exact replay; rounding of the f64 convolution itself is modelled, not bounded (checker tolerance 2^-30 relative). Known finding: f32 unscale inexact for narrow ranges on large offsets.",
-    technique="Coq proof (induction on matrix rows over exact rationals; Flocq binary64 for the monotonicity instances) + translated statement skeleton of dist.rs + bit-exact binary64 correspondence check with an extracted, proved-sound bracket checker",
-    design="DESIGN.md section 3, C11")
+    text="Coq theorems (coq/dist/C11.v, 51) about the model of ScoreDistribution (dist.rs): the tabulated pdf is the exact distribution of the discretised "
+         "score (induction on rows; literal sum over all K^M words), discretisation error bound, p-value brackets of the exact tail (d = (M+1)/2 steps: "
+         "C11_pvalue_brackets_tight; the text's integer d: C11_pvalue_brackets_integer_d), monotonicity, score/p-value round trip, no word is lost "
+         "(C11_no_word_lost), best word / min_pvalue; refuted-lemma with witness for the recorded known finding (f32 unscale). Binary64 ITSELF (Flocq), with NO "
+         "hypothesis on the pdf since the review wave: every entry of the binary64 pdf is finite and >= 0 and the table non-increasing, in [0,1], finite for any "
+         "background of finite doubles in [0,1] and c*M <= 1023 (C11_pdf_binary64, C11_table_binary64: M <= 341 DNA, 204 protein); p-values monotone for all "
+         "doubles under hypotheses on the INPUTS only (C11_pvalue_monotone_binary64_f32: every NaN-free f32 matrix except constant ones with |cell| > 2^52, for "
+         "which the claim is false - corpus x1 - and which fall back to C11_pvalue_monotone_binary64_built under the per-case evaluated scale predicate). "
+         "Matrices without any finite cell (M = 0, only -inf) are outside the property and panic in the core constructor (C11_no_finite_cell_panics, "
+         "C11_empty_matrix_panics; replayed). The bracket checker cannot fail open (check_C11_strict_fails: kind 8 = DIFF; C11_bracket_always_judged); a grid "
+         "checker with one entry per distinct score proved equal to the word-table checker so that widths <= 48 are bracket-checked. CDF_RANGE and the statement "
+         "skeleton of dist.rs re-read on every run (translate/dist_skel.py; C11_source_skeleton). Tie: bit-exact binary64 model of the table, pvalue, score, "
+         "scale, unscale vs implementation; exact tails by enumeration or on the score grid; a per-case log of what each verdict rests on is summed into the "
+         "evidence notes. Thorough tier adds the 21 composed statements of coq/e2e/E2EStat.v.",
+    note=COMMON_NOTE + "Partial: bracket / round-trip theorems are exact-arithmetic + bit-exact replay; rounding of the f64 convolution itself is modelled, not bounded (checker "
+         "tolerance 2^-30 relative; the round-trip tolerance branch is weaker than C11_roundtrip_binary64). Known finding: f32 unscale inexact for narrow ranges on large "
+         "offsets (C11-unscale-inexact). Robustness remark, not a violation: to_score_distribution panics on matrices without a finite cell (lightmotif-py refuses them "
+         "since /repo a1b1f91). Hand-written PROPFAIL: panics inside the domain (build / pvalue / score / sample).",
+    technique="Coq proof (induction on matrix rows over exact rationals; Flocq binary64 for the pdf / table / monotonicity instances) + translated statement skeleton of dist.rs + "
+              "bit-exact binary64 correspondence check with an extracted, proved-sound strict bracket checker",
+    design="DESIGN.md section 3, C11; as built: 8.5, 8.10 item 13")
 P["C12"] = dict(
-    text="Coq theorems (coq/tfm/C12.v) about the model of TFM-PVALUE (lightmotif-tfmpvalue): integer-score error bound, the dynamic-programming "
-         "table is the exact distribution of the integer score, lookup_pvalue brackets the exact tail probabilities within the stated "
-         "granularity error, ranges ordered in [0,1]; pvalue() itself (unbounded refinement as fuel-independent function) meets the bounds and "
-         "terminates under a gap condition. Round 3 (C12Ext.v 19 + C12Gen.v 2; 35 with C12.v): no-overflow of the i64 geometry under a stated "
-         "bound on |cell|/g and |score|/g, convergence / run-length / ties-never-converge, range in [0,1] for the binary64 instance, the hash-map "
-         "visiting order proved irrelevant in exact arithmetic and the bounds proved for the order-parameterised model, backgrounds with wildcard "
-         "mass; 22 constants / loop bounds / comparison operators of lib.rs regenerated on every run (translate/tfm_const.py -> GenTfm.v) and "
-         "proved equal to the model's. Tie: the private state is read through verif-hooks accessors (/repo 86badd0) and the binary64 model is "
-         "replayed in the hash-map iteration order the implementation reports: integer geometry, every Q-value row, ranges, converged and "
-         "pvalue() compared bit for bit on every iteration of approximate_pvalue; exact tails by enumeration / convolution.",
-    note=COMMON_NOTE + "Partial: probabilities are proved over exact rationals; binary64 rounding of x/g, score/g and the sums is replayed bit for bit, "
-         "not bounded (only steps with more than 6000 table entries fall back to a 1e-9 relative comparison). Known findings: F35 huge-cell / huge-score "
-         "(|x|/g >= 2^52: integer rescaling inexact in binary64; >= 2^63: i64 overflow, panic in debug / wrong converged value in release) and "
-         "wildcard mass with a finite wildcard cell.",
-    technique="Coq proof (induction on rows over exact rationals; order-parameterised model; Flocq binary64 for the range/no-overflow instances) + translator of the constants of lib.rs + bit-exact correspondence check in the reported hash-map order (verif-hooks accessors)",
-    design="DESIGN.md section 3, C12")
+    text="Coq theorems (coq/tfm: C12.v 14, C12Ext.v 19, C12Ext2.v 17, + C12Gen.v 2 translation ties = 52) about the model of TFM-PVALUE (lightmotif-tfmpvalue): "
+         "integer-score error bound, the dynamic-programming table is the exact distribution of the integer score, lookup_pvalue brackets the exact tail "
+         "probabilities within the stated granularity error, ranges ordered in [0,1]; no-overflow of the i64 geometry under a stated bound, the hash-map visiting "
+         "order proved irrelevant in exact arithmetic, backgrounds with wildcard mass; 22 constants / loop bounds / comparison operators of lib.rs regenerated on "
+         "every run (translate/tfm_const.py -> GenTfm.v). Review wave (C12Ext2.v): TOTALITY - on the property's domain only the i64 overflow sites are reachable at "
+         "all and under the closed bound every next() returns an Iteration (C12_step_panic_sites, C12_pvalue_step_total, C12_pvalue_run_total, "
+         "C12_pvalue_step_total_f64; any instance of the numbers); termination and a returned value for dyadic matrices / queries incl. exactly attainable ones "
+         "(C12_run_converges_dyadic, C12_pvalue_returns_dyadic); the final value tied to its own granularity (C12_pvalue_final); binary64 tables NaN-free for "
+         "strictly positive backgrounds (C12_range_in_unit_interval_f64_positive_bg); the checker's reference rows are extracted and specified "
+         "(C12_reference_rows / _skips). Tie: the private state is read through verif-hooks accessors (/repo 86badd0) and the binary64 model is replayed in the "
+         "hash-map iteration order the implementation reports: integer geometry, every Q-value row, ranges, converged and pvalue() compared bit for bit on every "
+         "iteration; exact tails by enumeration / convolution. Thorough tier adds the 21 composed statements of coq/e2e/E2EStat.v.",
+    note=COMMON_NOTE + "Partial: the five inequalities are theorems of the exact-rational instance; binary64 rounding of x/g, score/g and the sums is replayed bit for bit, "
+         "not bounded (only steps with more than 6000 table entries fall back to a 1e-9 relative comparison); NaN-freedom with zero frequencies / wildcard mass stays a "
+         "premise; non-convergence without integrality is a theorem (C12_tie_never_converges). Known findings: F35 huge-cell / huge-score (|x|/g >= 2^52: integer "
+         "rescaling inexact in binary64; >= 2^63: i64 overflow, panic in debug / wrong converged value in release) and wildcard mass with a finite wildcard cell. "
+         "Hand-written PROPFAIL: implementation panics, non-finite reported ranges / final values; the granularity at which the final value is judged.",
+    technique="Coq proof (induction on rows over exact rationals; order-parameterised model; totality and dyadic-termination theorems; Flocq binary64 for the range / no-overflow / "
+              "totality instances) + translator of the constants of lib.rs + bit-exact correspondence check in the reported hash-map order (verif-hooks accessors)",
+    design="DESIGN.md section 3, C12; as built: 8.5, 8.10 item 4")
 P["C13"] = dict(
-    text="Coq theorems (coq/tfm/C13.v): for every iteration of approximate_score from its initial window the returned score brackets the exact tail "
-         "(C13_approximate_score_bounds, no window hypothesis: window adequacy is a proved invariant since /repo 6b0495b), lookup_score soundness, "
-         "panic-site reachability. Round 3 (C13Ext.v 13 + C12Gen.v 2; 31 with C13.v): no-overflow under a stated bound, convergence, the bounds for "
-         "any hash-map visiting order and for backgrounds with wildcard mass (p <= (1-b_N)^M), score() as fuel-independent function meets the "
-         "bounds; constants of lib.rs regenerated on every run (translate/tfm_const.py). Tie: as C12 (hooks, replay in the reported hash-map "
-         "order, bit for bit) on every refinement step of approximate_score and the final score().",
-    note=COMMON_NOTE + "Partial: see C12 (exact rationals for the probabilities; known findings F35 huge-cell and wildcard mass with a finite wildcard cell).",
-    technique="Coq proof (exact rationals, window-adequacy invariant; order-parameterised model) + translator of the constants of lib.rs + bit-exact correspondence check in the reported hash-map order (verif-hooks accessors)",
-    design="DESIGN.md section 3, C13")
+    text="Coq theorems (coq/tfm: C13.v 16, C13Ext.v 13, C13Ext2.v 18, + C12Gen.v 2 translation ties = 49): for every iteration of approximate_score from its initial "
+         "window the returned score brackets the exact tail (C13_approximate_score_bounds, no window hypothesis: window adequacy is a proved invariant since /repo "
+         "6b0495b), lookup_score soundness, panic-site reachability, any hash-map visiting order, wildcard mass (p <= (1-b_N)^M). Review wave (C13Ext2.v): totality "
+         "along approximate_score under a closed i64 bound kept by a window invariant (C13_step_panic_sites, C13_approximate_score_total, C13_run_no_overflow, "
+         "C13_score_step_total_or_31(_f64)); convergence for integral granularities, dyadic matrices and M = 2 (C13_converged_if_integral, "
+         "C13_score_returns_dyadic, C13_converged_two_rows) while termination under a mere separation hypothesis is REFUTED (C13_tie_never_converges); the final "
+         "score tied to its iteration and granularity (C13_score_final, C13_score_value_final); the `Hence` sentence in the two-sided form that follows from the "
+         "clauses (C13_threshold_sandwich, C13_score_hence); reference rows extracted (C13_reference_rows). Tie: as C12 (hooks, replay in the reported hash-map "
+         "order, bit for bit) on every refinement step of approximate_score and the final score(). Thorough tier adds the 21 composed statements of E2EStat.v.",
+    note=COMMON_NOTE + "Partial: see C12 (exact rationals for the probabilities; known findings F35 huge-cell and wildcard mass with a finite wildcard cell). A strict reading of "
+         "clause 2 (`smallest score whose exact p-value does not exceed p`) does not follow from the property's own clauses.",
+    technique="Coq proof (exact rationals, window-adequacy invariant; order-parameterised model; totality and dyadic-termination theorems) + translator of the constants of lib.rs + "
+              "bit-exact correspondence check in the reported hash-map order (verif-hooks accessors)",
+    design="DESIGN.md section 3, C13; as built: 8.5, 8.10 item 4")
 P["C14"] = dict(
-    text="Coq theorems (coq/io, coq/transfac): std read_until/read_line over a list of chunks is independent of the chunking (induction on the "
-         "chunk list); for each format every well-formed record list printed and read back under every chunking yields exactly those records "
-         "then End - and, for TRANSFAC (round 3), End again for every further request (reader_roundtrip_post); Record::to_freq is modelled "
-         "(to_freq_shape, to_freq_rows_normalised). Tie: extracted reader models vs the four readers on generated files and the bundled data bases "
-         "through many BufReader capacities and random chunkings; TRANSFAC cases poll twice more after the end of input under all 9 chunkings and "
-         "compare to_freq(0.0)/(0.5) bit for bit. Translators: io tables (translate/io_abc.py, io_reader.py) and translate/transfac_reader.py "
-         "(the `last` update and starts_with literals of reader.rs, parse_tag codes, alphabet tables -> GenReader.v).",
-    note=COMMON_NOTE + "TRANSFAC: decimal->f32 is NOT trusted to Rust (Dec2F32.f32_of_token, exact, compared bit for bit with str::parse::<f32>); nom combinators are modelled by hand.",
-    technique="Coq proof (induction over chunk lists and record lists, print/parse round trip) + translators of the reader constants + extracted-model correspondence check (all chunkings, polling consumer)",
-    design="DESIGN.md section 3, C14")
+    text="Coq theorems (coq/io C14io.v 25, coq/transfac C14.v 21): std read_until/read_line over a list of chunks is independent of the chunking (induction on the "
+         "chunk list); for each format every well-formed record list printed and read back under every chunking yields exactly those records then End - and End "
+         "again at every further request (reader_roundtrip_polls_*, TRANSFAC reader_roundtrip_post). JASPAR / JASPAR 2016 round trips are proved for a GENERAL "
+         "layout with its own blank string before every count and trailing blanks after a bare identifier (reader_roundtrip_jaspar_general / _jaspar16_general; "
+         "right-aligned real files are instances; the one-separator style is a special case); for all three io formats and ANY input every request's outcome is "
+         "independent of the chunking (reader_polls_chunk_independent_*). The six bundled files are recognised as instances of the extracted printers (an "
+         "untrusted recogniser proposes layout and records, the extracted printer must re-print the file byte for byte and the extracted wf accept it) and the "
+         "readers are judged by the extracted check_c14 against the records WRITTEN in them. TRANSFAC: Record::to_freq modelled; the chunking clause and the "
+         "record count are decided by extracted checkers (check_same_chunkings, check_count: sound and complete); a stream is a partition of the bytes "
+         "(empty_chunks_are_not_deliveries). Tie: extracted reader models vs the four readers on generated files and the bundled data bases through many "
+         "BufReader capacities, random chunkings and an Interrupted-only chunking. Translators: translate/io_abc.py, io_reader.py, transfac_reader.py.",
+    note=COMMON_NOTE + "TRANSFAC: decimal->f32 is NOT trusted to Rust (Dec2F32.f32_of_token, exact, compared bit for bit with str::parse::<f32>); nom combinators are modelled by hand. "
+         "Outside the round-trip theorems (documented): UniPROBE last column line without final newline (accepted by the code since /repo 2d8f0f6, modelled), JASPAR `>` in a "
+         "description, blank lines between records, trailing blanks on a raw count line (each an Err); TRANSFAC RT/RL/RN/DT lines with other blanks. Observation O-IO1 "
+         "(truncated JASPAR16 record after an I/O error mid-record) violates neither C14 nor C15 as stated.",
+    technique="Coq proof (induction over chunk lists and record lists, print/parse round trip for a per-token layout) + translators of the reader constants / skeletons + "
+              "extracted-model correspondence check (all chunkings, polling consumer; untrusted recogniser validated by the extracted printer for bundled files; extracted "
+              "checkers also for the chunking clause and the record count)",
+    design="DESIGN.md section 3, C14; as built: 8.5, 8.10 item 3")
 P["C15"] = dict(
-    text="Coq theorems (coq/io, coq/transfac): for every byte list and every chunking each reader returns Record | Error | End - never Panic, "
-         "never out of fuel - and consuming until the first error terminates. TRANSFAC, round 3: a POLLING consumer (next() called again any number "
-         "of times after an error or the end: reader_polls_total, reader_total_post, reader_end_is_final) and streams whose fill_buf FAILS or is "
-         "interrupted (std's read_line/append_to_string modelled: reader_total_faults_repaired for `last = buffer.len()`, reader_total_faults_stop for "
-         "the reader as it was; which of the two the code is, is re-read on every run by translate/transfac_reader.py). Tie: outcome sequences of the "
-         "extracted models vs the readers on mutated/truncated/random/UTF-8-damaged inputs under catch_unwind, with 0..6 polls after the first "
-         "non-record outcome and scripted I/O fault streams (this found the stale line offset repaired in /repo 23feb61).",
-    note=COMMON_NOTE + "I/O faults (a fill_buf that fails) are exercised through scripted BufReads by both groups' harnesses; the fault-stream THEOREMS exist for TRANSFAC (the io group's part is being extended this round: notes/io.md); allocation failure and panics inside nom/std are not modelled.",
-    technique="Coq proof (totality + termination measure on unread bytes / line feeds + fault events, invariant on the line offset) + translator of the reader's `last` update + extracted-model correspondence check with a polling consumer and I/O fault scripts",
-    design="DESIGN.md section 3, C15")
+    text="Coq theorems (coq/io C15io.v 42, coq/transfac C15.v 43 = 27 property + 7 instantiated with generated constants + 9 translation ties): for every byte "
+         "list and every chunking each reader returns Record | Error | End - never Panic, never out of fuel - and consuming until the first error terminates. "
+         "Both groups: a POLLING consumer (next() called again any number of times after an error or the end: reader_polls_total*, reader_end_is_final*) and "
+         "streams whose fill_buf FAILS or is interrupted (event streams; reader_total_faults_*; Interrupted is invisible: reader_interrupted_invisible_*; capacity "
+         "independence of the JASPAR readers). TRANSFAC: the reader model assigns `last = buffer.len()` like the source (fault_free_agree_any: without faults both "
+         "assignments are the same function; reader_model_last_is_source_last re-checked on every run); transient ends of input (an empty fill_buf slice although "
+         "data follows) are fault events. Static facts regenerated on every run: the statement skeleton of the three io Iterator::next and header literals "
+         "(GenIoReader.v, reader_skeleton_is_modelled); every parse.rs uses complete nom combinators only, so the `unreachable!()` on nom Incomplete cannot be "
+         "reached (io_parsers_are_complete; transfac parsers_are_complete, parse_streaming_is_modelled, error_from_incomplete_is_generated). Tie: outcome sequences "
+         "of the extracted models vs the readers on mutated/truncated/random/UTF-8-damaged inputs (7 kinds of invalid UTF-8 at every offset) under catch_unwind, "
+         "with polls after the first non-record outcome and scripted I/O fault streams (this found the defects repaired in /repo 23feb61 and df3a2dd).",
+    note=COMMON_NOTE + "Fault-stream theorems exist for both groups. Allocation failure (DenseMatrix::new(rows) with rows from the input) and panics inside nom/std are not modelled; "
+         "f32::from_str is assumed Ok on every token nom's float recogniser accepts. reader_end_is_final holds for plain byte strings (false with transient ends of input). "
+         "Hand-written PROPFAIL: the harness watchdog (hang); transfac: none decides a verdict. Documented observations: O-IO1 (truncated JASPAR16 record after an I/O "
+         "error mid-record), sticky JASPAR parse errors.",
+    technique="Coq proof (totality + termination measure on unread bytes / line feeds + fault events, invariant on the line offset) + translators (reader skeletons, the `last` "
+              "update, the streaming-combinator list of every parse.rs, the Incomplete arm of error.rs) + extracted-model correspondence check with a polling consumer and I/O fault scripts",
+    design="DESIGN.md section 3, C15; as built: 8.5, 8.10 items 7, 8")
 P["C16"] = dict(
-    text="Coq theorems (coq/sampler/C16.v): for every data set meeting the constructor's guards and every choice list (the RNG replaced by an "
-         "explicit choice list), by induction over steps, the motif counts equal the window counts of the active sequences at their starts, "
-         "the background counts equal the remaining symbol counts, starts stay in range, no underflow; determinism. Tie: the choice list is read "
-         "off the implementation's trace (seeded StdRng, hook verif_starts) and replayed through the extracted model. Round 3: second property "
-         "file C16F.v (13 theorems): invariant and outcome theorems for the float-driven step function next_g / run_g, WeightedIndex never returns "
-         "a zero-weight or out-of-range position (binary64 proof on Flocq), Zoops decision = information-content comparison; third audited file "
-         "SamplerSkel.v (20): the statement lists of sampler.rs regenerated on every run (translate/sampler_skel.py -> GenSampler.v) interpreted "
-         "= the hand model for all states (gen_next_is_model). 52 obligations. The first 20/40 calls of every run are also replayed through the "
-         "FLOAT model (PSSM, weights, rand 0.8.8 WeightedIndex / Uniform from the recorded generator word): the model's own choice must equal "
-         "the implementation's.",
-    note=COMMON_NOTE + "Hook: Sampler::verif_starts() (feature verif-hooks). rand's bit generator (ChaCha12), select_holdout's integer draw and the initial draws stay inputs read off the trace; libm enters as re-validated oracle tables; only weights_support_partial is proved (the converse, a live position has a positive weight, is not); panics on an empty active set are documented outside the quantifier.",
-    technique="Coq proof (state invariant by induction over operation/choice lists; Flocq binary64 for the weighted draw) + translated statement lists of sampler.rs proved equal to the model + extracted-model correspondence check (choice-list replay and float replay)",
-    design="DESIGN.md section 3, C16")
+    text="Coq theorems (coq/sampler: C16.v 19 + C16F.v 28 = 47 property theorems; SamplerSkel.v 17 translation ties; 64 obligations): for every data set meeting "
+         "the constructor's guards and every choice list, by induction over steps, the motif counts equal the window counts of the active sequences at their "
+         "starts, the background counts equal the remaining symbol counts, starts stay in range, no underflow; float-driven step function on Flocq (WeightedIndex "
+         "never returns a zero-weight or out-of-range position, Zoops decision = information-content comparison). Review wave: DETERMINISM as a theorem about the "
+         "sampler as a function of the generator's word stream - rand 0.8.8's integer and float sampling (Uniform<usize>, gen_index, index::sample Floyd / in-place, "
+         "one u64 per WeightedIndex draw) is modelled (SamplerStream.v) and C16F.sampler_deterministic / initial_starts_deterministic say the trace and the initial "
+         "starts depend only on the words consumed; closed no-panic theorems for Oops on the choice list and on every word stream (sampler_no_panic_oops, "
+         "sampler_no_panic_oops_stream_closed: Ok, or the documented weight-overflow panic 8, or the stream ends); the exception cannot be dropped "
+         "(sampler_no_panic_oops_unconditional_refuted; real input: corpus p16); the fuel of Uniform::new's scale loop proved sufficient "
+         "(uniform_scale_fuel_suffices); index::sample yields a valid seed set (seed_set_from_stream_valid); sampler_inv_stream_closed. SamplerSkel.v: the "
+         "statement lists of sampler.rs regenerated on every run (translate/sampler_skel.py) interpreted = the hand model. Tie: hook verif_starts; the harness "
+         "records every word the generator hands out; the driver recomputes initial starts, Zoops seed order and the hold-out of EVERY call from them; first "
+         "20/40 calls through the float model; an implementation panic is accepted only at a documented site whose message class matches.",
+    note=COMMON_NOTE + "Hook: Sampler::verif_starts() (feature verif-hooks). Checked, not proved: rand's bit generator (StdRng = ChaCha12: seed -> words) and that the implementation "
+         "draws from nothing but its generator (rerun = same trace). libm enters as re-validated oracle tables; only weights_support_partial is proved (not its converse); "
+         "index::sample modelled for length < 500000 and amount < 163. Documented observation: the weight-overflow panic (site 8) is reachable on real data inside C16's "
+         "quantifier as written (corpus p16) - the clause about the reported state holds up to it. Hand-written PROPFAIL (stricter than check_C16): nondeterministic-trace, "
+         "index-range observations, the table of panic message classes.",
+    technique="Coq proof (state invariant by induction over operation/choice lists; word-stream model of rand 0.8.8; Flocq binary64 for the weighted draw; fuel sufficiency) + "
+              "translated statement lists of sampler.rs proved equal to the model + extracted-model correspondence check (word-stream replay on every call, float replay)",
+    design="DESIGN.md section 3, C16; as built: 8.5, 8.10 item 15")
 P["C17"] = dict(
-    text="PARTIAL. Coq theorems (coq/pyglue/C17.v) about a model of the PyO3 glue (argument handling, dispatch, conversions) parameterised over "
-         "the core operations: each entry point passes exactly the right arguments to the core operation and returns its result; invalid arguments "
-         "raise exceptions, never panic. Round 3 (60 theorems): scanners as lazy state over the LIVE sequence object agree with the eager reading "
-         "(py_scanner_lazy_eq_eager), calls on separate objects are independent (py_threads_independent), file objects whose read() fails: that very "
-         "exception is raised (py_faulty_read_exception_wins), no PanicException from any item of an iteration (py_items_no_panic), a matrix without "
-         "a finite score raises ValueError (py_no_finite_score_raises, /repo a1b1f91); signatures, match arms and every new_err site (message, "
-         "exception class) regenerated from lib.rs / io.rs / pyfile.rs on every run (translate/pyglue_sig.py; py_exception_sites_tied). Tie: embedded "
-         "CPython drives the freshly built module, the core library is called in the same process, results compared bit for bit; histories incl. "
-         "threads, generator arguments, faulty file objects; every case in a child interpreter.",
-    note=COMMON_NOTE + "CPython 3.11 and PyO3 0.22 run-time are trusted; the `mt` (thread) verdict is decided by the worker (concurrent == sequential), not by the model. Known finding left: F25 (tfmpvalue with |score|/granularity beyond i64: the core overflows, tfm F35).",
-    technique="Coq proof about the glue model (parameterised over the core record; lazy-scanner and locality invariants) + translator of signatures / match arms / exception sites + in-process differential check Python vs core",
-    design="DESIGN.md section 3, C17")
+    text="PARTIAL. Coq theorems (coq/pyglue/C17.v, 68; + 13 composed in coq/e2e/E2EPyCore.v, thorough tier) about a model of the PyO3 glue (argument handling, "
+         "dispatch, conversions) parameterised over the core operations: each entry point passes exactly the right arguments to the core operation and returns its "
+         "result; invalid arguments raise exceptions; lazy scanners over the LIVE sequence agree with the eager reading; faulty file objects: that very exception is "
+         "raised; signatures, match arms and every new_err site regenerated from lib.rs / io.rs / pyfile.rs on every run (translate/pyglue_sig.py). Review wave: the "
+         "no-panic theorems assume GUARDED totality of the core (core_guarded: each operation total exactly under the precondition the glue establishes; every guard "
+         "shown necessary: py_no_panic_needs_every_guard_refuted) instead of the unsatisfiable unconditional totality; the core record is INSTANTIATED with the C04 / "
+         "C01 / C02 models in coq/e2e (core_of_models): the five history hypotheses and scan_stable discharged without numeric hypothesis "
+         "(pycore_history_depends_on_text_only, pycore_scanner_lazy_eq_eager), calculate = C01's score_def at every position (pycore_calculate_is_C01), scan = "
+         "exactly C02's hit set (pycore_scan_is_C02); scanner-hit and iteration-item verdicts by extracted proved checkers (check_hits sound and complete, "
+         "check_items); float(int) bound corrected to 2^1024 - 2^970. Tie: embedded CPython drives the freshly built module, the core library is called in the same "
+         "process, results compared bit for bit; histories incl. threads, generator arguments, faulty file objects; every case in a child interpreter.",
+    note=COMMON_NOTE + "CPython 3.11 and PyO3 0.22 run-time are trusted. The link from Python results to the C07 / C09-C14 definitions is by two test chains (Python = Rust core here; "
+         "Rust core = Coq model in the owning property's check), not by a Coq instantiation; `st_typed` (alphabet labels agree with values) and `rest_total` (guarded totality of "
+         "the 20 operations not instantiated) remain hypotheses of pycore_call_no_panic_partial; the instance is tied to the implementation by one captured example "
+         "(pycore_readme_matches_python) plus the checks of C01 / C02 / C04. Hand-written in the driver: PanicException / abort / hang => PROPFAIL, the `mt` (thread) verdict "
+         "(decided by the worker: concurrent == sequential), value rendering, the window of a continued iteration. Known finding left: F25 (tfmpvalue with "
+         "|score|/granularity beyond i64: the core overflows, tfm F35).",
+    technique="Gallina model of the PyO3 glue over an abstract core record with guarded-totality theorems; core record instantiated with the stripe / score / scan models in coq/e2e; "
+              "translator of signatures / match arms / exception sites; in-process differential check Python vs Rust core through extracted checkers (check_C17 / check_hits / check_items)",
+    design="DESIGN.md section 3, C17; as built: 8.5, 8.7, 8.10 items 1, 2")
 P["C18"] = dict(
-    text="Coq theorems (coq/pyidx/C18.v): __getitem__ of every class returns the element for -len <= i < len and IndexError otherwise, never a panic; "
-         "len is the logical length; for every buffer-exporting class the address of view element [i][j] is the address of the logical element in the "
-         "padded dense layout (C19), inside the allocation, never padding; item format matches. Tie: embedded CPython, all indices and full views compared.",
-    note=COMMON_NOTE + "CPython 3.11 and PyO3 0.22 run-time are trusted.",
-    technique="Coq proof (index normalisation, stride arithmetic on the dense layout) + extracted-model correspondence check through CPython",
-    design="DESIGN.md section 3, C18")
+    text="Coq theorems (coq/pyidx/C18.v, 22): __getitem__ of every class returns the element for -len <= i < len and IndexError otherwise, never a panic, for every "
+         "integer index; len is the logical length; for every buffer-exporting class the address of view element [i][j] is the address of the logical element in the "
+         "padded dense layout (C19), inside the allocation, never padding; item format matches; buffer requests with every flag word; class/slot table, "
+         "DEFAULT_EXTRA_ROWS, row alignment, lanes and the __getbuffer__ guards regenerated from lib.rs (translate/pyidx_slots.py; C18_model_matches_source). Review "
+         "wave: the rows*32 - len() cells a StripedScores view shows beyond len() are NAMED (scores of windows running into the wildcard continuation; compared on "
+         "every run: C18_scores_view_cells_named); views still exported while the sequence is reused read the logical symbols while the reuse stays within the "
+         "capacity (C18_stale_view_reads_logical_within_capacity, C18_descriptor_is_history_independent; beyond it: known finding F24, C18_stale_view_refuted); "
+         "the allocation verdict by the extracted check_alloc (C18_check_alloc_sound_complete). Tie: embedded CPython, all indices and full views compared, views "
+         "kept exported across reconfigurations and re-observed.",
+    note=COMMON_NOTE + "CPython 3.11 and PyO3 0.22 run-time are trusted. Single-threaded export assumed (the 2-D __getbuffer__ take PyRefMut); StripedSequence and ScoreDistribution "
+         "define no __len__ / __getitem__ (index clause vacuous for them). The F24 probe runs in a sub-process and its verdict is hand-written in props/c18.py; the reference "
+         "contents are computed by the Python driver. Known finding: F24 (stale view after a calculate() needing more look-ahead rows than the spare capacity).",
+    technique="Coq proof (index normalisation, stride arithmetic on the dense layout, offset-level view model) + translator of the slot tables and constants + extracted-model "
+              "correspondence check through CPython with extracted check_C18 / check_alloc",
+    design="DESIGN.md section 3, C18; as built: 8.5")
 P["C19"] = dict(
-    text="Coq theorems (coq/dense/C19.v): stride/alignment arithmetic, refinement of the storage model (rows with arbitrary padding, flat ravel view) "
-         "to a rows x columns table for every operation and, by induction on the operation list, every operation sequence; resize/clone/eq/fill/"
-         "iteration consequences, incl. (round 3) positional iterator calls: any pattern of next / next_back / nth(k) / nth_back(k) visits the rows "
-         "of a shrinking index window (C19_iteration_steps) and skip / rev().skip / step_by are those walks (C19_iteration_skip_adaptors). 19 theorems. "
-         "Tied to dense.rs by a correspondence check of the extracted model against DenseMatrix on random operation "
-         "sequences over a register file of three matrices for 4 element types x 7 column counts, with positional calls on iter()/iter_mut()/into_iter() "
-         "and len() after each call; PROPFAIL decided by the extracted checker check_C19 (proved sound and complete).",
-    note=COMMON_NOTE + "Rust's repr(align) size rule and allocator alignment are assumptions validated by the observed stride/addresses.",
-    technique="Coq proof (induction over op sequences and over iterator call lists, refinement) + extracted-model correspondence check",
-    design="DESIGN.md section 3, C19")
+    text="Coq theorems (coq/dense/C19.v, 28): stride/alignment arithmetic, refinement of the storage model (rows with arbitrary padding, flat ravel view) "
+         "to a rows x columns table for every operation and, by induction on the operation list, every operation sequence; resize (incl. C19_shrink_then_grow) / "
+         "clone / eq / fill / iteration consequences. Review wave: EVERY PROPFAIL is `check_C19 = false` for the extracted checker proved sound and complete for "
+         "trace_ok, which now includes the positional iterator calls (next / next_back / nth / nth_back / skip / step_by / last / count with len() after each: "
+         "check_steps, C19_check_steps_sound_complete), observer panics (C19_check_rejects_observer_panic), the address of every row (alignment decided in Coq "
+         "from raw addresses; derived in the struct-level model for every aligned base: C19_struct_model_meets_spec, C19_alignment_needs_the_rounding) and "
+         "== / != as an arbitrary element relation next to the identity of cell values (f32 NaN / -0.0 / infinities generated: "
+         "C19_f32_eq_is_partial_equivalence, C19_check_extracted_instance_f32); repr(align) 32/16 and stride() read from dense.rs on every run "
+         "(translate/dense_layout.py; C19_model_matches_source). Tied to dense.rs by a correspondence check of the extracted model against DenseMatrix on random "
+         "operation sequences over a register file of three matrices for 4 element types x 7 column counts + 309 directed corpus cases.",
+    note=COMMON_NOTE + "Rust's repr(align) size rule and the allocator returning align-aligned buffers are assumptions (the buffer address is universally quantified over the "
+         "multiples of the alignment). ravel consistency and the uniform flag after fill() are booleans computed by the harness; f32 == agrees with Flocq's comparison on a "
+         "grid of codes only; only the x86_64 alignment is exercised.",
+    technique="Coq proof (induction over op sequences and over iterator call lists, refinement) + sound and complete extracted checker for the whole observation trace + "
+              "struct-level model as DIFF tie + translator of the layout constants",
+    design="DESIGN.md section 3, C19; as built: 8.5, 8.10 item 14")
 
 # properties whose check is registered (edit as groups are integrated)
 CLAIMED = ["C%02d" % i for i in range(1, 20)]
@@ -270,18 +444,19 @@ def main():
         "engines": [
             {"name": "coq", "path": "coq/", "serves_properties": ENGINE_PROPS,
              "kind_free_text": "Coq 8.16.1 developments: coq/base (shared), one directory per model group with Model/Proofs/Extract files; "
-                               "property theorems in coq/<group>/Cnn.v; Gen*.v regenerated from /repo by translate/; coq/e2e composes the groups end to end (`./check e2e`: E2E.v 30 theorems = obligations of C02/C03, E2EStat.v 21 theorems = obligations of C09/C11/C12/C13 in the thorough tier)"},
+                               "property theorems in coq/<group>/Cnn.v; Gen*.v regenerated from /repo by translate/; coq/e2e composes the groups end to end (`./check e2e`, 72 statements: E2E.v 30, E2EStat.v 21 = obligations of C09/C11/C12/C13, E2EPyCore.v 13 = obligations of C17, E2EPadding.v 8 = obligations of C07, all four = obligations of C02/C03, each in the thorough tier); libraries: Flocq 4.1, coq-interval (group pwm only)"},
             {"name": "harness", "path": "harness/", "serves_properties": ENGINE_PROPS,
              "kind_free_text": "Rust crate with path dependencies on /repo (hooks on): generators and implementation drivers, one binary per model group"},
             {"name": "drivers", "path": "ocaml/", "serves_properties": ENGINE_PROPS,
-             "kind_free_text": "OCaml drivers around the models extracted from Coq (ExtrOcamlBasic): correspondence check and extracted property checkers"},
+             "kind_free_text": "OCaml drivers around the models extracted from Coq (ExtrOcamlBasic only): correspondence check and extracted, proved-sound property checkers; what each driver still decides by hand is listed in the SPEC trusted_base"},
         ],
         "checks": [],
         "notes": "Technique: machine-checked proof in Coq 8.16.1 about hand-written Gallina models, tied to /repo on every run by a "
                  "correspondence (differential) check of the extracted models against the implementation, and by translators for table-like "
                  "parts of the source (tables, constants, loop bounds, statement skeletons: translate/*.py -> coq/<group>/Gen*.v, regenerated on every run; "
                  "a source a translator cannot parse is a broken obligation). When the source differs from the pinned fingerprints (pins/source.json) the quick "
-                 "tier escalates its search (DESIGN.md 8.8). See DESIGN.md section 8 for the state as built.",
+                 "tier escalates its search (DESIGN.md 8.8); the statements of the property theorems are pinned (pins/theorems.json). An independent review of the "
+                 "audited statements (notes/review-round3.md) was acted on: DESIGN.md 8.10. See DESIGN.md section 8 for the state as built.",
         "not_applicable": [],
     }
     for i in ids:
